@@ -1,4 +1,5 @@
 import TexelVerif.PG.Model
+import TexelVerif.PG.Deadlock
 import TexelVerif.Drv.Chess
 /-! Line protocol for the proof-game kernels and the proof-game certificate checker (C16). -/
 namespace Drv.PG
@@ -70,6 +71,19 @@ def step (args : List String) : String :=
       let nW : Int := (men true p.b : Int) - men true q.b
       s!"{distCombine a b nB nW p.wtm q.wtm}"
     | _, _, _, _ => "bad-op"
+  | ["deadlock", bm, f1, f2, f3, f4, f5, f6, g1, g2, g3, g4, g5, g6] =>
+    -- ProofGame::computeDeadlockedPieces(P, G, blocked): the blocked mask afterwards and the verdict
+    match bm.toNat?, readFEN (fenOf [f1, f2, f3, f4, f5, f6]), readFEN (fenOf [g1, g2, g3, g4, g5, g6]) with
+    | some bm, .ok p, .ok g =>
+      let B : Sq → Bool := fun q => bm.testBit q.val
+      if bm ≥ 2 ^ 64 || allSq.any (fun q => B q && p.b[q] == 0) then "bad-op" else
+      let nP := (allSq.filter fun q => p.b[q] != 0).length
+      let nG := (allSq.filter fun q => g.b[q] != 0).length
+      if nP > nG then s!"{bm} 1" else          -- "captures can break a deadlock"
+      match deadlocked p.b B with
+      | none => "fuel"
+      | some D => s!"{maskOf fun q => B q || D q} {b2s (verdict p.b g.b D)}"
+    | _, _, _ => "bad-op"
   | "check" :: f1 :: f2 :: f3 :: f4 :: f5 :: f6 :: sans =>
     match readFEN (fenOf [f1, f2, f3, f4, f5, f6]) with
     | .error e => "err " ++ e.toString
